@@ -673,6 +673,13 @@ def format_matrix():
             out.append((st, "$%s" % f))
             out.append((st, "${%s}" % f))
             out.append((st, "pre$%s.post" % f))
+    # constants and fragments of each style's syntax, with and without its introducer character
+    for const in ("hello", "}", "end }", "{", "{ x", "}{", "{}", "{{}}", "}}", "{{", "a } b {message}", "{message} }",
+                  "%", "100%", "%%", "% s", "%(", "%(message", "%(message)", "$", "$$", "a $", "${", "${message",
+                  "$(message)", "{message!z}", "{message:", "%(message)z", "{0}", "{message[0]}", "{message.x}",
+                  "%(message)s %", "{message}{", "$message$"):
+        for st in ("classic", "format", "template", "safe-template"):
+            out.append((st, const))
     return out
 
 
